@@ -442,8 +442,16 @@ impl Calibrations {
 
                 match matching_calibration {
                     Some(calibration) => {
+                        // The measured qubit replaces the calibration's qubit variable, if any.
+                        let mut qubit_expansions: HashMap<&String, Qubit> = HashMap::new();
+                        if let Qubit::Variable(identifier) = &calibration.identifier.qubit {
+                            qubit_expansions.insert(identifier, measurement.qubit.clone());
+                        }
+
                         let mut instructions = calibration.instructions.clone();
                         for instruction in instructions.iter_mut() {
+                            substitute_qubit_variables(instruction, &qubit_expansions);
+
                             match instruction {
                                 Instruction::Pragma(pragma)
                                     if pragma.name == "LOAD-MEMORY"
